@@ -27,4 +27,5 @@ def plan(tier, seed):
                 assumptions=["refs/ref_ms.Server holds the data and chooses encodings; bodies compared line by line ignoring "
                              "line-ending style and trailing blank lines"],
                 stubs=["FakeSock", "reference server"])
-    return dict(conds=conds, meta=meta)
+    from engine import e2
+    return dict(conds=conds, meta=meta, obligations=e2.c17_obligations())
